@@ -35,6 +35,42 @@ CLAIMED = {
              "compared; numpy exp passed as data.",
         technique="Coq proof (induction over refresh sequences, NoDup positions) + vm_compute correspondence + rebuild oracle",
         design="7/C10"),
+    "C01": dict(
+        text="Coq theorems: per-cell continuity D(Js+Jn) = B mu_boundary for every mesh/psi/links/boundary data whenever the "
+             "linear solve returned a solution (uses L = D.G), total injection = sum len x density, and L_t * density_t = I_t for "
+             "every balanced assignment. Correspondence: real TDGLSolver.update calls vs Model.Step.step (psi', Js, Jn, rhs; SuperLU "
+             "contract measured). Oracle on every update of real runs (2-4 terminals, holes, static/ramped field, constant and "
+             "time-dependent currents, screening, three current units) and an accept/reject table of balanced assignments.",
+        note="Coq kernel; stdlib real-number axioms; SuperLU an oracle with measured contract; terminal membership (matplotlib Path) "
+             "taken as data; cache coherence of update_mu_boundary exercised by the oracle, not yet proved.",
+        technique="Coq proof over R + vm_compute step correspondence + per-update continuity oracle",
+        design="7/C01"),
+    "C04": dict(
+        text="Coq theorems for arbitrary unit-modulus site phases: covariant gradient and Laplacian transform covariantly, "
+             "supercurrent invariant, per-site Euler update covariant, and a whole solve step (pinned rows included) is covariant: "
+             "same verdict, psi' = g psi', same mu, Js, Jn. Correspondence: operators built for A + grad chi vs model gauge_links; "
+             "oracle on implementation operators and on pairs of real runs with uniformly shifted A started from gauge-related seeds.",
+        note="Coq kernel; stdlib real-number axioms; exp/cos/sin only through unit modulus (g passed as data); run-level induction over "
+             "steps is exercised by run pairs, the per-step theorem is proved.",
+        technique="Coq proof over R (complex algebra) + vm_compute correspondence + gauge-twin runs",
+        design="7/C04"),
+    "C06": dict(
+        text="Coq theorems: pinned rows are identity rows for any links; psi = 0 on a pinned site is a fixed point of the update for "
+             "every mu, eps, dt (so every step and screening iteration keeps it); a configured non-zero value is re-imposed after the "
+             "update (held exactly); rows outside the pinned set equal the unpinned rows; with terminal_psi = None nothing is pinned. "
+             "Correspondence: update calls vs Model.Step.step with the pinned set; oracle on every update of real runs for "
+             "terminal_psi in {0, None, 1, 0.5+0.5j, 0.3}, screening on/off.",
+        note="Coq kernel; stdlib real-number axioms; SuperLU oracle.",
+        technique="Coq proof over R + vm_compute step correspondence + per-update pinning oracle",
+        design="7/C06"),
+    "C17": dict(
+        text="Coq theorems in exact arithmetic for every mesh: Laplacians annihilate constants, (psi=1, eps=1, lap=0, mu=0) is a "
+             "fixed point of the site update for every gamma, u != 0, dt, and a full step maps the uniform state to itself with "
+             "Js = Jn = mu = 0. Correspondence: update calls vs Model.Step.step; oracle on every update of undriven real runs "
+             "(irregular/smoothed/holed meshes, unpinned terminals, 4 gamma, 2 u, adaptive on/off, screening) incl. growth of dt to dt_max.",
+        note="Exact theorem; binary64 noise bounded by measurement (1e-11) with dt_max inside the scheme's CFL region (stated guard).",
+        technique="Coq proof over R + vm_compute step correspondence + stationarity oracle",
+        design="7/C17"),
 }
 
 PENDING_REASON = "check not built yet in this session (planned, see DESIGN.md section 7); not claimed until it runs"
